@@ -264,14 +264,19 @@ def correspond_stream(ctx, harness, ops, tag, label=None, shrink=True):
         ctx.notes.append(f"{tag}: model left its float fragment at line {d} (generator problem, stream ignored from there)")
         return 0
     fail = ops[:d + 1]
-    if shrink and len(fail) > 2:
+    # setup lines (open / conn / inst) are never removed by the shrinker
+    nsetup = 0
+    while nsetup < len(fail) and fail[nsetup].split()[0] in ("open", "conn", "inst"):
+        nsetup += 1
+    setup = fail[:nsetup]
+    if shrink and len(fail) > nsetup + 1:
         def still(cand):
-            cand = [ops[0]] + [c for c in cand if c != ops[0]]
+            cand = setup + cand
             gg, mm = run_pair(ctx, cand, harness, tag + "-shrink")
             dd = first_diff(gg, mm, len(cand))
-            return dd is not None and not any("UNSUPPORTED" in x for x in mm[:dd + 1])
-        body = shrink_sequence(ctx, harness, fail[1:], tag, still)
-        fail = [ops[0]] + body
+            return dd is not None and not any("UNSUPPORTED" in x or "bad-op" in x for x in (mm[:dd + 1] + gg[:dd + 1]))
+        body = shrink_sequence(ctx, harness, fail[nsetup:], tag, still)
+        fail = setup + body
     gg, mm = run_pair(ctx, fail, harness, tag + "-final")
     if first_diff(gg, mm, len(fail)) is None:      # shrunk case did not reproduce (random selectors): keep the prefix
         fail = ops[:d + 1]
